@@ -33,6 +33,53 @@ pub struct Fault {
 /// Payload of an injected client abort.
 pub struct InjectedAbort;
 
+/// A clock jump: at the nth schedule point of an operation the simulated clock advances.
+#[derive(Clone, Debug, Serialize, Deserialize, PartialEq)]
+pub struct Jump {
+    pub c: usize,
+    pub op: usize,
+    pub nth: u32,
+    pub secs: u64,
+}
+
+type AdvanceFn = extern "C" fn(i64);
+type ReadsFn = extern "C" fn() -> u64;
+static CLOCK_ADVANCE: std::sync::OnceLock<Option<AdvanceFn>> = std::sync::OnceLock::new();
+static CLOCK_READS: std::sync::OnceLock<Option<ReadsFn>> = std::sync::OnceLock::new();
+
+extern "C" {
+    fn dlsym(handle: *mut std::ffi::c_void, symbol: *const std::ffi::c_char) -> *mut std::ffi::c_void;
+}
+
+/// The clock seam (simclock.so, preloaded into run processes), if present.
+fn clock_advance_fn() -> Option<AdvanceFn> {
+    *CLOCK_ADVANCE.get_or_init(|| unsafe {
+        let p = dlsym(std::ptr::null_mut(), b"sim_clock_advance\0".as_ptr() as *const std::ffi::c_char);
+        if p.is_null() {
+            None
+        } else {
+            Some(std::mem::transmute::<*mut std::ffi::c_void, AdvanceFn>(p))
+        }
+    })
+}
+
+/// How many times anything in this process read a clock through libc (None without the seam).
+pub fn clock_reads() -> Option<u64> {
+    let f = *CLOCK_READS.get_or_init(|| unsafe {
+        let p = dlsym(std::ptr::null_mut(), b"sim_clock_reads\0".as_ptr() as *const std::ffi::c_char);
+        if p.is_null() {
+            None
+        } else {
+            Some(std::mem::transmute::<*mut std::ffi::c_void, ReadsFn>(p))
+        }
+    });
+    f.map(|f| f())
+}
+
+pub fn clock_seam_present() -> bool {
+    clock_advance_fn().is_some()
+}
+
 #[derive(Clone, Debug, Serialize, Deserialize, Default)]
 pub struct SchedStats {
     pub steps: u64,
@@ -42,6 +89,8 @@ pub struct SchedStats {
     pub switches_by_site: Vec<u64>,
     pub aborts_fired_by_site: Vec<u64>,
     pub faults_fired: Vec<Fault>,
+    #[serde(default)]
+    pub clock_jumps_fired: u64,
     pub cap_hit: bool,
     pub diverged: bool,
     pub log_hash: u64,
@@ -57,6 +106,7 @@ struct Inner {
     prio: Vec<u64>,
     site_mask: u64,
     faults: Vec<Fault>,
+    jumps: Vec<Jump>,
     follow: Option<Vec<u8>>,
     cursor: usize,
     record: Vec<u8>,
@@ -122,7 +172,7 @@ pub fn yield_point(site: u32) {
 }
 
 impl Sched {
-    pub fn new(n: usize, seed: u64, policy: Policy, site_mask: u64, faults: Vec<Fault>, follow: Option<Vec<u8>>, keep_log: bool, step_cap: u64) -> Arc<Sched> {
+    pub fn new(n: usize, seed: u64, policy: Policy, site_mask: u64, faults: Vec<Fault>, jumps: Vec<Jump>, follow: Option<Vec<u8>>, keep_log: bool, step_cap: u64) -> Arc<Sched> {
         let mut rng = Rng::new(seed);
         let mut prio: Vec<u64> = (0..n as u64).map(|i| 1000 + i).collect();
         rng.shuffle(&mut prio);
@@ -135,6 +185,7 @@ impl Sched {
                 prio,
                 site_mask,
                 faults,
+                jumps,
                 follow,
                 cursor: 0,
                 record: vec![],
@@ -269,6 +320,16 @@ impl Sched {
                 }
                 drop(g);
                 std::panic::panic_any(InjectedAbort);
+            }
+        }
+        // injected clock jump? (the system under test keeps running; only its clock moves)
+        if in_op {
+            if let Some(pos) = g.jumps.iter().position(|j| j.c == me && j.op == op && j.nth == k) {
+                let j = g.jumps.remove(pos);
+                if let Some(f) = clock_advance_fn() {
+                    f((j.secs as i64).saturating_mul(1_000_000_000));
+                    g.stats.clock_jumps_fired += 1;
+                }
             }
         }
         let next = Self::decide(&mut g, me, site);
